@@ -134,6 +134,14 @@ impl RefIndex {
                 });
             }
             GraphNode::Table(table) => {
+                for line_id in table.header().iter().chain(table.rows().iter().flatten()) {
+                    for key in Self::line_ref_keys(graph, table.id(), *line_id) {
+                        self.inline_references
+                            .entry(key.clone())
+                            .or_insert_with(HashSet::new)
+                            .insert(table.id());
+                    }
+                }
                 table.next_id().map(|child_id| {
                     self.index_node(graph, child_id);
                 });
